@@ -188,6 +188,12 @@ func VerifC10_Lifecycle() {
 	gc := rt.Bool("gc-finalizer")
 	finalized := rt.Bool("hook-answers-finalized")
 	failAdd := rt.Bool("finalizer-write-fails")
+	// how the webhooks are configured (url, or service reference + path) must not
+	// matter to the finalizer protocol
+	viaService := rt.Bool("hooks-given-as-service-reference")
+	if viaService {
+		rt.Cover("hooks-via-service")
+	}
 
 	parent := env.Thing("ns", "p", "puid")
 	var fins []string
@@ -223,7 +229,7 @@ func VerifC10_Lifecycle() {
 	}
 	sh, fh := mk(true), mk(finOn)
 	pc := verifNewPC(w, verifPCConfig{
-		ParentRes: env.ThingRes, GenerateSelector: true, FinalizeEnabled: finOn,
+		ParentRes: env.ThingRes, GenerateSelector: true, FinalizeEnabled: finOn, HooksViaService: viaService,
 		Children: []verifChildRule{{Res: env.ConfigMapRes, Strategy: verifStrategyOf("InPlace")}},
 		Sync:     sh, Finalize: fh,
 	})
